@@ -7,6 +7,7 @@ import (
 	_ "verifmc/checks/c04"
 	_ "verifmc/checks/c05"
 	_ "verifmc/checks/c06"
+	_ "verifmc/checks/c07"
 	_ "verifmc/checks/c15"
 	_ "verifmc/checks/c18"
 )
